@@ -216,6 +216,8 @@ def run(ctx: Ctx):
     cases += cd.filesc_cases(wide=not q)
     cases += cd.filerange_cases(2 if q else 9)
     cases += cd.etag_cases(wide=not q, rng=rng)
+    # body stream kinds: wrap_file over io objects of every seekability kind x block sizes 1 / 3 / 8192 (Stream/..)
+    cases += cd.stream_cases((1, 4) if q else (1, 2, 4, 9, 17), wide=not q)
     # response classes / pre-set headers (Preset/..)
     cases += cd.preset_cases((1, 3) if q else (1, 2, 3, 5), wide=not q, rng=rng)
     ctx.notes["growth_cases"] = len(cases) - grown
